@@ -24,6 +24,8 @@ def obligations(tier):
             obs.append(Ob(f"window/tf={tf}/lifespan={life}s/n={n1}", dict(n=n1, tf=tf, life=life), dict(round="ideal", div="assume"), fn="run_window", weight=50, budget_s=900, max_paths=200000))
     for kind, name, kw, w in all_specs(tier):
         heavy = name in HEAVY
+        if tier == "quick" and name in ("ADX", "aroon"):
+            continue   # thousands of value paths per schedule: thorough tier only
         K = w + 2
         for extra_life in ((0, 2) if not heavy else (0,)):
             life = K + extra_life
@@ -102,7 +104,7 @@ def run_readings(ctx, P):
 
 
 META = dict(
-    bounds=dict(quick="window clause: N=4 symbolic timestamps, lifespans 60/150/400 s, base / T1 / T5 timeframe, appends one-by-one, in pairs, as one chunk; readings clause: every catalogue indicator and analysis wrapper, lifespan = K and K+2 minutes on a 1-minute grid (K = warm-up+2), n = lifespan+3 candles, schedules: singles from empty, window preloaded then singles, window-sized chunk then singles, pairs (only where the precondition holds)",
+    bounds=dict(quick="window clause: N=4 symbolic timestamps, lifespans 60/150/400 s, base / T1 / T5 timeframe, appends one-by-one, in pairs, as one chunk; readings clause: every catalogue indicator and analysis wrapper except ADX and Aroon (thorough only), lifespan = K and K+2 minutes on a 1-minute grid (K = warm-up+2), n = lifespan+3 candles, schedules: singles from empty, window preloaded then singles, window-sized chunk then singles, pairs (only where the precondition holds)",
                 thorough="N=5; periods 2 and 3; n+1"),
     stubs=["exact real arithmetic, uninterpreted rounding and products", "datetime -> integer seconds, UTC"],
     assumptions=["K = warm-up index + 2 is at least the look-back any shipped indicator needs (a larger K narrows the claim, never raises an alarm)"],
